@@ -130,7 +130,9 @@ func makeFrame(r *rand.Rand, from, to *wire.Router, id int, size int, prio bool)
 		img = append(img, core.RandBytes(r, msg+auth)...)
 		ps := b.GetPooledSlice(peering.FrameOffset + len(img) + peering.FrameOverhead)
 		if ps == nil {
-			return nil, nil, fmt.Errorf("no pooled slice for %d bytes", len(img))
+			// this tree's builder has no buffer of that size: use the biggest frame it produces itself
+			oversizeRefused.Add(1)
+			return makeFrame(r, from, to, id, 51+auth+20000, prio)
 		}
 		copy(ps[peering.FrameOffset:], img)
 		ff, err := b.ParseFrame(ps[peering.FrameOffset:peering.FrameOffset+len(img)], ps, peering.FrameOffset)
@@ -175,6 +177,79 @@ func (p plan) String() string {
 		w = " across-key-rollover"
 	}
 	return fmt.Sprintf("%s at=%d byte=%d bit=%d dist=%d inject=%d field=%s%s", p.kind, p.at, p.bytePos, p.bit, p.distance, len(p.inject), p.field, w)
+}
+
+// closeUnderTraffic: a link is closed (locally, with a close that takes a moment - the log callback Close runs is
+// the existing point where time can pass) while its writer still has frames queued and while the wire delivers an
+// unauthenticated frame to its reader. Until the connection is really closed the link layer must keep doing its
+// job: nothing in clear on the wire, nothing unauthenticated handed up.
+func closeUnderTraffic(res *core.Result, r *rand.Rand, idA, idB *m.Address, rounds int) {
+	for round := 0; round < rounds; round++ {
+		lp, err := establish(idA, idB)
+		if err != nil {
+			res.Count("close_under_traffic_setup_failed", 1)
+			time.Sleep(4 * time.Millisecond)
+			continue
+		}
+		var sent []*sentFrame
+		for k := 0; k < 300; k++ {
+			f, sf, err := makeFrame(r, lp.a, lp.b, k, []int{100, 300, 1000, 3000}[r.IntN(4)], false)
+			if err != nil {
+				break
+			}
+			sent = append(sent, sf)
+			_ = lp.la.Send(f)
+		}
+		// an unauthenticated, well-formed frame for A's reader (what anybody on the path can write)
+		plain, psf, perr := makeFrame(r, lp.b, lp.a, 9999, 200, false)
+		var raw []byte
+		if perr == nil {
+			d, _ := plain.FrameDataWithMargins(0, 0)
+			raw = make([]byte, 2+len(d))
+			raw[0], raw[1] = byte(len(raw)>>8), byte(len(raw))
+			copy(raw[2:], d)
+			plain.ReturnToPool()
+		}
+		slow := time.Duration(r.IntN(3000)) * time.Microsecond
+		lp.la.Close(func() {
+			if raw != nil {
+				lp.w.Inject(wire.BtoA, raw)
+			}
+			time.Sleep(slow)
+		})
+		time.Sleep(2 * time.Millisecond)
+		wit := map[string]any{"case_id": "close-under-traffic", "close_took": slow.String()}
+		for _, mm := range lp.w.AllPassed() {
+			if mm.Dir != wire.AtoB || mm.Idx < lp.base[0] {
+				continue
+			}
+			for _, sf := range sent {
+				if sf.canary != nil && bytes.Contains(mm.Data, sf.canary) {
+					res.Violate("payload-in-clear-on-wire:while-closing", fmt.Sprintf("while a link with queued frames was being closed (the close took %s), the payload of frame %d crossed the wire in clear", slow, sf.id), wit)
+					lp.close()
+					return
+				}
+			}
+		}
+		for drained := false; !drained && psf != nil; {
+			select {
+			case f := <-lp.a.Upstream:
+				d, _ := f.FrameDataWithMargins(0, 0)
+				if bytes.Equal(d, psf.bytes) {
+					res.Violate("unauthenticated-frame-delivered:while-closing", fmt.Sprintf("a frame written to the wire without the link-layer seal was handed to the frame handler while the link was being closed (the close took %s)", slow), wit)
+					lp.close()
+					return
+				}
+				f.ReturnToPool()
+			default:
+				drained = true
+			}
+		}
+		lp.close()
+		res.Count("closes_under_traffic", 1)
+		time.Sleep(4 * time.Millisecond)
+	}
+	res.Case("close-under-traffic", true)
 }
 
 func linkField(msgLen, i int) string {
@@ -580,6 +655,10 @@ func run(c *core.Ctx) {
 	// links that come up while another connection of the same peer is being set up (shared key-exchange state):
 	// whatever such a link sends must be sealed like on any other link
 	c04.DoubleDial(res, core.RNG("c05/doubledial"))
+	{
+		rr := core.RNG("c05/closetraffic")
+		closeUnderTraffic(res, rr, env.NewIdentity(rr, nil), env.NewIdentity(rr, nil), c.Q(40, 400))
+	}
 	res.Require(res.Counter("double_dial_second_connection_refused")+res.Counter("double_dial_second_link_sealed") >= 1 || res.ViolationCount() > 0, "double-dial scenario never reached its decisive step")
 	rid := core.RNG("c05/ids")
 	idA, idB := env.NewIdentity(rid, nil), env.NewIdentity(rid, nil)
